@@ -118,7 +118,7 @@ class Recorder:
             e["exc"] = f"{type(ex).__name__}: {ex}"[:160]
             r = getattr(ex, "response", None)
             if r:
-                e["resp"] = L(r)
+                e["resp"] = L(r[:100000])  # a notification is tens of octets; a huge one must not choke the validator (its prefix does not decode: verdict)
         for j in range(len(buf)):
             buf[j] = 0xAA
         try:
